@@ -59,6 +59,7 @@ type interpreter struct {
 	events   []Event        // violations and notes raised on this path
 	reach    map[string]int // per-run counters
 	mapOrder bool
+	mapOrderBudget, mapOrderUsed int
 	monitor  bool
 	frozen   map[*value]int32
 	undo     []undoRec
@@ -93,6 +94,9 @@ type interpreter struct {
 	builders    map[*value]value
 	nativeSeen  map[uintptr]*value
 	outSink     func(w value, s value)
+	colorOn     bool
+	capture     bool
+	captured    []value
 
 	// persistent per worker
 	old       map[*value]int32 // cells that existed after init -> root name index
@@ -549,7 +553,7 @@ func callSSAx(i *interpreter, caller *frame, callpos token.Pos, fn *ssa.Function
 				return nil
 			}
 		}
-		if fn.Blocks == nil || (fn.Pkg != nil && !interpretedPkg(fn.Pkg.Pkg.Path())) {
+		if fn.Blocks == nil || (fn.Pkg != nil && !interpretedPkg(fn.Pkg.Pkg.Path()) && !interpFuncs[name]) {
 			if i.inInit {
 				// package initialisers may call into libraries we do not
 				// interpret (loggers, colour objects): their results are
